@@ -18,10 +18,12 @@ Cfg(has, ss, sa, sk, ri, ck) ==
 
 \* sids 0x10 / 0x50: request id and response id (bit 6)
 SidsA == {16, 80}
-CfgsA == {Cfg(TRUE, ss, sa, sk, ri, ck) :
-            ss \in {<<1, 2>>, <<2>>, <<1, 2, 3>>}, sa \in {{}, {2}},
-            sk \in {{}, {<<1, 16>>}, {<<2, 16>>, <<2, 80>>, <<3, 16>>}}, ri \in BOOLEAN, ck \in BOOLEAN}
+SkipsA == {<<{}, {}>>, <<{2}, {<<1, 16>>}>>, <<{}, {<<2, 16>>, <<2, 80>>, <<3, 16>>}>>}
+CfgsA == {Cfg(TRUE, ss, k[1], k[2], ri, ck) :
+            ss \in {<<1, 2>>, <<2, 3>>}, k \in SkipsA, ri \in BOOLEAN, ck \in BOOLEAN}
          \cup {Cfg(FALSE, <<>>, {}, {}, ri, FALSE) : ri \in BOOLEAN}
+CfgsAq == {Cfg(TRUE, <<1, 2>>, k[1], k[2], ri, FALSE) : k \in SkipsA, ri \in BOOLEAN}
+          \cup {Cfg(TRUE, <<2, 3>>, {}, {}, FALSE, TRUE), Cfg(FALSE, <<>>, {}, {}, TRUE, FALSE)}
 
 \* all four combinations of bits 6 and 7
 SidsB == {16, 80, 133, 197}
